@@ -56,11 +56,14 @@ class Hello:
 
 @harness(prop="C15", target="geckolib.async_locator:GeckoAsyncLocator._async_on_discovered",
          bounded="0..2 spas already listed (concrete Python list in the encoding); identifiers, names, filter are symbolic")
-async def reply_listed_once_and_filter_honoured(n: int, id1: bytes, id2: bytes, ident: bytes, name: bytes, has_addr: bool,
-                                                has_filter: bool, filt: bytes, port: int):
-    requires(both(0 <= n, n <= 2))
+async def reply_listed_once_and_filter_honoured(n: int, id1: bytes, id2: bytes, ident: bytes, name: bytes, addr_kind: int,
+                                                has_filter: bool, filt: bytes, port: int, empty_filter: bool):
+    requires(both(0 <= n, n <= 2, 0 <= addr_kind, addr_kind <= 2))
     n = concrete_cases(n, 0, 2)
-    loc = new_locator("10.0.0.9" if has_addr else None, filt.decode("latin1") if has_filter else None)
+    addr_kind = concrete_cases(addr_kind, 0, 2)
+    address = [None, "", "10.0.0.9"][addr_kind]          # "" (e.g. an empty configuration field) means: not given
+    has_addr = addr_kind == 2
+    loc = new_locator(address, filt.decode("latin1") if has_filter else ("" if empty_filter else None))
     requires(implies(has_filter, len(filt) > 0))
     prior = [id1, id2]
     for i in range(n):
@@ -94,6 +97,7 @@ async def reply_listed_once_and_filter_honoured(n: int, id1: bytes, id2: bytes, 
         ensures("earlier-entries-untouched", loc._spas[i] is before_spas[i])
     ensures("invariant-preserved", listed_ok(loc))
     cover("filtered-out", both(has_filter, not wanted))
+    cover("empty-address-string-is-no-address", both(addr_kind == 1, not has_filter, not dup))
     cover("non-ascii-identifier-requested", both(has_filter, wanted, not dup, len(ident) > 1, byte_at(ident, 1) >= 128))
 
 
@@ -185,6 +189,7 @@ class discover_loop:
 
 @harness(prop="C15", target="geckolib.async_locator:GeckoAsyncLocator.discover", loops=["discover_loop"])
 async def discovery_terminates_on_time_and_cleans_up(has_addr: bool, has_filter: bool):
+    """(the broadcast address for an empty address string is checked in broadcast_goes_to_the_configured_address)"""
     set_sleep_model(sleep_with_bounded_overshoot)
     asyncio.get_running_loop = lambda: Loop()
     asyncio.create_task = create_task
@@ -207,3 +212,21 @@ async def discovery_terminates_on_time_and_cleans_up(has_addr: bool, has_filter:
         ensures("helper-tasks-are-cancelled", both(t.name.startswith("LOC:"), t.cancelled))
     cover("returns-early-for-a-requested-spa", both(loc._has_found_spa, elapsed < 1))
     cover("times-out-with-nothing", both(len(loc._spas) == 0, elapsed >= GeckoConfig.DISCOVERY_TIMEOUT_IN_SECONDS))
+
+
+@harness(prop="C15", target="geckolib.async_locator:GeckoAsyncLocator.__init__", name="empty_strings_mean_not_given")
+def empty_strings_mean_not_given(k: int):
+    requires(both(0 <= k, k <= 2))
+    address = [None, "", "10.0.0.9"][concrete_cases(k, 0, 2)]
+    loc = GeckoAsyncLocator(AsyncTasks(), record_event, spa_address=address, spa_identifier="")
+    ensures("empty-address-is-none", (loc._spa_address is None) == (address in (None, "")))
+    ensures("empty-identifier-is-none", loc._spa_identifier is None)
+    dest = GeckoHelloProtocolHandler.broadcast_address(static_ip=loc._spa_address)
+    ensures("broadcast-goes-to-the-configured-address-or-the-broadcast-address",
+            dest == ((address, 10022) if address not in (None, "") else ("<broadcast>", 10022)))
+
+
+# hello decode for any name incl. separators / latin-1 (shared with C04)
+from contracts import c04_wire
+harness(prop="C15", target="geckolib.driver.protocol.hello:GeckoHelloProtocolHandler.handle",
+        name="reply_identifier_and_name_decode_intact")(c04_wire.hello_response_roundtrip)
